@@ -842,6 +842,55 @@ enum SkippyEnum {
     },
 }
 
+#[derive(Serialize)]
+enum Schema {
+    V1,
+}
+#[derive(Serialize)]
+struct Empty {}
+#[derive(Serialize)]
+struct UnitTag;
+#[derive(Serialize)]
+struct ZeroSized {
+    schema: Schema,
+    none: [u8; 0],
+    empty: Empty,
+    marker: std::marker::PhantomData<u64>,
+    unit: (),
+    tag: UnitTag,
+    n: u8,
+}
+#[derive(Serialize)]
+enum ZeroSizedEnum {
+    V { schema: Schema, none: [u8; 0], n: u8 },
+}
+struct FailingZst;
+impl Serialize for FailingZst {
+    fn serialize<S: Serializer>(&self, _: S) -> Result<S::Ok, S::Error> {
+        Err(serde::ser::Error::custom("zero-sized and failing"))
+    }
+}
+#[derive(Serialize)]
+struct ZeroSizedFail {
+    bad: FailingZst,
+    n: u8,
+}
+/// a value whose Serialize goes through `collect_str` with a Display that writes several pieces
+struct Pieces(Vec<String>);
+impl std::fmt::Display for Pieces {
+    fn fmt(&self, f: &mut std::fmt::Formatter<'_>) -> std::fmt::Result {
+        for p in &self.0 {
+            f.write_str(p)?;
+        }
+        Ok(())
+    }
+}
+impl Serialize for Pieces {
+    fn serialize<S: Serializer>(&self, s: S) -> Result<S::Ok, S::Error> {
+        s.collect_str(self)
+    }
+}
+
 fn derived(acc: &mut Acc) {
     fn one<T: Serialize>(name: &str, v: &T, must_fail: bool, acc: &mut Acc) {
         acc.count("executions", 1);
@@ -867,9 +916,38 @@ fn derived(acc: &mut Acc) {
     let mut m = BTreeMap::new();
     m.insert("k".to_string(), 3u8);
     one("flatten-map", &FlatOk { x: 1, rest: m }, false, acc);
+    // an integer key is refused or written as its exact text: judged by the main leg (`Img::ErrOr`);
+    // here only "no panic, and if it succeeds it is the serde_json image"
     let mut ik = BTreeMap::new();
     ik.insert(5i128, 1u8);
-    one("i128-keyed-map", &ik, true, acc);
+    if !matches!(catch(|| ik.serialize(ValueSerializer)), Ok(Err(_))) {
+        one("i128-keyed-map", &ik, false, acc);
+    }
+    // zero-sized field types that do not serialize to unit, next to ones that do
+    one("zero-sized-fields", &ZeroSized { schema: Schema::V1, none: [], empty: Empty {}, marker: std::marker::PhantomData, unit: (), tag: UnitTag, n: 7 }, false, acc);
+    one("zero-sized-fields-in-variant", &ZeroSizedEnum::V { schema: Schema::V1, none: [], n: 1 }, false, acc);
+    one("zero-sized-failing-field", &ZeroSizedFail { bad: FailingZst, n: 1 }, true, acc);
+    one("zero-sized-in-tuple", &(Schema::V1, [0u8; 0], Empty {}, ()), false, acc);
+    // Display-based impls that write their text in several pieces of every length around typical
+    // buffer sizes (collect_str)
+    for a in [0usize, 1, 5, 63, 64, 65, 100, 1000] {
+        for b in [0usize, 1, 63, 64, 65, 70, 129, 5000] {
+            for c in [0usize, 3] {
+                let p = Pieces(vec!["a".repeat(a), "é".repeat(b), "z".repeat(c)]);
+                acc.count("executions", 1);
+                let want = format!("{}{}{}", "a".repeat(a), "é".repeat(b), "z".repeat(c));
+                match catch(|| p.serialize(ValueSerializer)) {
+                    Ok(Ok(Value::String(s))) if s == want => acc.outcome("display-pieces:ok"),
+                    other => acc.violation(Violation {
+                        sig: "display-pieces".into(),
+                        what: format!("a Display-based Serialize writing pieces of {a} / {b} x 2 / {c} bytes: image {:?} is not the text written", other.map(|r| r.map(|v| RV::from_value(&v).show().chars().take(80).collect::<String>()).map_err(|e| e.to_string()))),
+                        case: json!({"kind": "derived", "name": "display-pieces"}),
+                        size: a + b + c,
+                    }),
+                }
+            }
+        }
+    }
     one("struct-with-skipped-fields", &Skippy { name: "Frank".into(), nickname: None, referrer: None, tags: vec![] }, false, acc);
     one("struct-variant-with-skipped-field", &SkippyEnum::V { a: 1, b: None }, false, acc);
     one("ip-address", &std::net::IpAddr::from([127, 0, 0, 1]), false, acc);
